@@ -151,14 +151,14 @@ theorem filter_kept_zones {zs : List Zone} (hz : ∀ z ∈ zs, z.Truthful) {c h 
   | cons z zs ih =>
     have ih' := ih (fun z' hz' => hz z' (mem_cons_of_mem _ hz'))
     cases hk : zoneKept (some (c, some h)) z with
-    | true => simp [filter_cons, hk, ih']
+    | true => simp [hk, ih']
     | false =>
       have hlow := dropped_rows_below (hz z (mem_cons_self)) hk
       have : z.rows.filter P = [] := by
         rw [filter_eq_nil_iff]
         intro r hr hPr
         have := hP r hPr; have := hlow r hr; omega
-      simp [filter_cons, hk, ih', this]
+      simp [hk, ih', this]
 
 /-- The mark the catalog records is the sink's mark. -/
 def MarkOk (e : Entry) : Prop :=
@@ -203,7 +203,8 @@ theorem delta_filter_eq {s : Store} (hs : s.Truthful) {e : Entry} (hm : MarkOk e
     funext r
     rw [Bool.and_comm]
     exact delta_pred_eq e.q e.mark (sinkMark e.frames) hm r
-  rw [hpred, filter_append, filter_append]
+  rw [hpred]
+  simp only [filter_append]
   congr 1
   apply filter_kept_zones hs
   intro r hr
@@ -262,7 +263,7 @@ theorem sinkMark_append_nil (frames : List (List Ev)) : sinkMark (frames ++ []) 
 
 theorem sinkMark_append_ne {frames kept : List (List Ev)} (h : kept ≠ []) :
     sinkMark (frames ++ kept) = sinkMark kept := by
-  simp [sinkMark, getLast?_append, h]
+  simp [sinkMark, getLast?_append]
   cases hk : kept.getLast? with
   | none => simp [getLast?_eq_none_iff] at hk; exact absurd hk h
   | some f => simp
@@ -560,5 +561,134 @@ theorem kept_nil_of_settled {s : St} (hi : Inv s) {n : Nat} {e : Entry} (he : s.
     rw [hk] at hflat
     simp only [flatten_cons, append_eq_nil_iff] at hflat
     exact absurd hflat.1 hne
+
+/-! ## The concrete placement changes of the model are legitimate re-layouts -/
+
+theorem vis_flush_perm (s : Store) (shard now : Nat) : (s.flush shard now).vis.Perm s.vis := by
+  unfold Store.flush
+  simp only
+  split
+  · exact Perm.refl _
+  · simp only [Store.vis, flatMap_append, flatMap_cons, flatMap_nil, append_nil, mkZone]
+    have h := filter_append_perm (fun e : Ev => e.shard == shard) s.mem
+    -- (kept ++ P) ++ (Z ++ moved)  ~  (moved ++ (kept ++ P)) ++ Z  ~  (mem ++ P) ++ Z
+    refine (perm_append_comm).trans ?_
+    rw [append_assoc]
+    refine (perm_append_comm).trans ?_
+    refine Perm.append_right _ ?_
+    rw [← append_assoc]
+    exact Perm.append_right _ h
+
+theorem flush_ok {s : Store} (hs : s.Truthful) {shard now : Nat}
+    (hclock : ∀ r ∈ s.mem, r.ts ≤ now + 1) : RelayoutOk s (s.flush shard now) := by
+  refine ⟨vis_flush_perm s shard now, ?_⟩
+  unfold Store.flush
+  simp only
+  split
+  · exact hs
+  · intro z hz
+    simp only [mem_append, mem_singleton] at hz
+    rcases hz with hz | rfl
+    · exact hs z hz
+    · intro r hr
+      simp only [mkZone] at hr ⊢
+      exact ⟨le_maxOf (mem_map.mpr ⟨r, hr, rfl⟩), hclock r (mem_filter.mp hr).1⟩
+
+theorem vis_compact_perm (s : Store) (shard now : Nat) : (s.compact shard now).vis.Perm s.vis := by
+  unfold Store.compact
+  simp only
+  split
+  · exact Perm.refl _
+  · simp only [Store.vis, flatMap_append, flatMap_cons, flatMap_nil, append_nil]
+    refine Perm.append_left _ ?_
+    have h := filter_append_perm (fun z : Zone => z.ofShard shard) s.zones
+    refine Perm.trans ?_ (h.flatMap_right (·.rows))
+    rw [flatMap_append]
+    exact perm_append_comm
+
+theorem compact_ok {s : Store} (hs : s.Truthful) {shard now : Nat}
+    (hclock : ∀ z ∈ s.zones, z.mtime ≤ now) : RelayoutOk s (s.compact shard now) := by
+  refine ⟨vis_compact_perm s shard now, ?_⟩
+  unfold Store.compact
+  simp only
+  split
+  · exact hs
+  · intro z hz
+    simp only [mem_append, mem_singleton] at hz
+    rcases hz with hz | rfl
+    · exact hs z (mem_filter.mp hz).1
+    · intro r hr
+      simp only at hr ⊢
+      obtain ⟨z0, hz0, hr0⟩ := mem_flatMap.mp hr
+      have hz0' := (mem_filter.mp hz0).1
+      have := (hs z0 hz0' r hr0).2
+      have := hclock z0 hz0'
+      exact ⟨le_maxOf (mem_map.mpr ⟨r, hr, rfl⟩), by omega⟩
+
+theorem backdate_ok {s : Store} (hs : s.Truthful) : RelayoutOk s s.backdate := by
+  refine ⟨?_, ?_⟩
+  · apply Perm.of_eq
+    simp only [Store.vis, Store.backdate, flatMap_map]
+  · intro z hz
+    simp only [Store.backdate, mem_map] at hz
+    obtain ⟨z0, hz0, rfl⟩ := hz
+    intro r hr
+    have := (hs z0 hz0 r hr).1
+    exact ⟨this, by simp only; omega⟩
+
+/-! ## The AwaitFlush barrier -/
+
+/-- Tickets pending are above `completed`, at most `submitted`, and increasing. -/
+def Progress.Ordered (p : Progress) : Prop :=
+  p.completed ≤ p.submitted ∧ p.pending.Pairwise (· < ·) ∧
+    ∀ t ∈ p.pending, p.completed < t ∧ t ≤ p.submitted
+
+theorem progress_init_ordered : Progress.init.Ordered := by
+  simp [Progress.Ordered, Progress.init]
+
+theorem progress_next_ordered {p : Progress} (h : p.Ordered) : p.nextId.1.Ordered := by
+  obtain ⟨h0, h1, h2⟩ := h
+  refine ⟨by simp only [Progress.nextId]; omega, ?_, ?_⟩
+  · simp only [Progress.nextId, pairwise_append, pairwise_cons, mem_singleton]
+    refine ⟨h1, ⟨by simp, Pairwise.nil⟩, ?_⟩
+    intro a ha b hb; subst hb; have := (h2 a ha).2; omega
+  · intro t ht
+    simp only [Progress.nextId, mem_append, mem_singleton] at ht ⊢
+    rcases ht with ht | rfl
+    · have := h2 t ht; omega
+    · omega
+
+/-- The flush worker completes jobs one at a time in ticket order: the ticket completed is the
+oldest pending one. -/
+theorem progress_complete_head_ordered {p : Progress} (h : p.Ordered) {t : Nat} {rest : List Nat}
+    (hp : p.pending = t :: rest) : (p.markCompleted t).Ordered := by
+  obtain ⟨h0, h1, h2⟩ := h
+  rw [hp] at h1 h2
+  have hrest : ∀ u ∈ rest, t < u := (pairwise_cons.mp h1).1
+  have hfil : (t :: rest).filter (fun u => !(u == t)) = rest := by
+    rw [filter_cons]
+    simp only [beq_self_eq_true, Bool.not_true, Bool.false_eq_true, if_false]
+    apply filter_eq_self.mpr
+    intro u hu
+    have := hrest u hu
+    simp; omega
+  have ht := h2 t mem_cons_self
+  refine ⟨?_, ?_, ?_⟩
+  · simp only [Progress.markCompleted]; omega
+  · simp only [Progress.markCompleted, hp, hfil]; exact (pairwise_cons.mp h1).2
+  · intro u hu
+    simp only [Progress.markCompleted, hp, hfil] at hu ⊢
+    have := hrest u hu
+    have := (h2 u (mem_cons_of_mem _ hu)).2
+    omega
+
+/-- With in-order completion, once the barrier for `target` opens no ticket up to `target` is
+still pending. -/
+theorem barrier_sound {p : Progress} (h : p.Ordered) {target : Nat}
+    (ho : p.barrierOpen target = true) : ∀ t ∈ p.pending, target < t := by
+  intro t ht
+  have := (h.2.2 t ht).1
+  simp only [Progress.barrierOpen, decide_eq_true_eq] at ho
+  omega
 
 end Snel.Materialize
